@@ -96,9 +96,10 @@ def _gen_request(ch, focus, same=None):
         mode = same
     else:
         mode = ch.pick("req.mode", focus)
-    via = ch.weighted("req.via", [("direct", 4), ("event", 4), ("queue", 1 if kind == "start" else 0)])
+    via = ch.weighted("req.via", [("direct", 4), ("event", 4),
+                                  ("queue", 0 if kind != "start" else 4 if mode == "wq" else 1)])
     r = {"kind": kind, "mode": mode, "via": via}
-    if ch.flag("req.cb", 0.3) and via == "direct":
+    if ch.flag("req.cb", 0.4) and via == "direct":
         r["cb"] = True
     if kind == "start" and via != "queue" and ch.flag("req.prio", 0.1):
         r["prio"] = ch.pick("req.prio_v", [1, 100, 150, 777])
@@ -106,8 +107,10 @@ def _gen_request(ch, focus, same=None):
 
 
 def _gen_hook(ch, focus):
-    mode = ch.pick("hook.mode", focus)
-    phase = ch.pick("hook.phase", PHASES)
+    # the custom-code mode has the most to lose from requests inside its own lifecycle events
+    mode = ch.weighted("hook.mode", [(x, 3 if x == "coded" else 1) for x in focus])
+    phase = ch.weighted("hook.phase", [("will_start", 1), ("starting", 2), ("started", 2), ("will_stop", 1),
+                                       ("stopping", 2), ("stopped", 2)])
     prio = ch.pick("hook.prio", [1, 1000000, -1000000])
     script = []
     for _ in range(1 + ch.choice("hook.len", 4)):
@@ -123,7 +126,8 @@ def _gen_hook(ch, focus):
 
 
 def _gen_op(ch, focus, allow_burst=True):
-    kind = ch.weighted("op", [("req", 10), ("trigger", 5), ("group", 1), ("var", 1), ("switch", 1.5),
+    kind = ch.weighted("op", [("req", 10), ("trigger", 5), ("group", 1), ("var", 1),
+                              ("switch", 3 if ("dev" in focus or "coded" in focus) else 1),
                               ("checkpoint", 0.7), ("burst", 1.5 if allow_burst else 0), ("clear_holds", 0.4)])
     op = {"op": kind}
     if kind == "req":
